@@ -81,6 +81,16 @@ def gen_cases(tier, seed):
                                 rate={"SGD": 0.2, "Adam": 1.0, "Adagrad": 2.0}[solver] * float(rng.choice([0.5, 1.0, 2.0])), max_fails=3,
                                 epoch_iters=int(rng.integers(1, 4)), max_iters=8, R=int(rng.integers(1, 3)), via_gcp_opt=bool(i % 6 == 0), f_est_tol=tolk,
                                 sampler=smp, failing=True)
+    # caller-supplied bounds of either sign under every stochastic solver, directly and through gcp_opt (own random stream)
+    rngb = gen.rng_for(seed, ID, tier, "custom-bound")
+    for rep in range(1 if tier == "quick" else 8):
+        for solver in ("SGD", "Adam", "Adagrad"):
+            for lbv in (-0.5, -2.0, 0.0, 0.3):
+                for via in (False, True):
+                    shape = [int(s) for s in rngb.integers(2, 5, size=int(rngb.integers(2, 4)))]
+                    yield C(w="solve", shape=shape, loss="GAUSSIAN", par=None, solver=solver, sparse=False,
+                            rate={"SGD": 0.05, "Adam": 0.3, "Adagrad": 0.5}[solver], max_fails=2, epoch_iters=int(rngb.integers(3, 8)),
+                            max_iters=6, R=int(rngb.integers(1, 3)), via_gcp_opt=via, f_est_tol=None, sampler=None, custom_lb=lbv)
     for i in range(24 if tier == "quick" else 160):
         shape = [int(s) for s in rng.integers(2, 5, size=int(rng.integers(2, 4)))]
         loss, par = losses[i % 4]
@@ -337,6 +347,10 @@ def _w_solve(case, ctx, rng):
     shape = tuple(case["shape"])
     loss, R = case["loss"], case["R"]
     Xd = _loss_data(rng, shape, loss)
+    if case.get("custom_lb") is not None:
+        # least squares on data with a strongly negative slice: the iterates are pushed below any finite bound on the factors
+        Xd = np.abs(Xd) + 0.5
+        Xd[int(rng.integers(0, shape[0]))] *= -4.0
     sparse = case["sparse"] and loss in ("GAUSSIAN", "POISSON")
     if sparse:
         Xd = Xd * (rng.random(shape) < 0.6)
@@ -348,7 +362,13 @@ def _w_solve(case, ctx, rng):
     else:
         X = ttb.tensor(Xd.copy())
     fh, gh, lb = fg_setup(getattr(Objectives, loss), None, case["par"])
-    M0 = ttb.ktensor([rng.uniform(0.2, 1.0, size=(s, R)) for s in shape])
+    objective = getattr(Objectives, loss)
+    if case.get("custom_lb") is not None:
+        # a caller-supplied objective (function, gradient, lower bound) with a bound of the caller's choosing: negative, zero, positive
+        lb = float(case["custom_lb"])
+        objective = (fh, gh, lb)
+        ctx.feat(custom_lb=("neg" if lb < 0 else "0" if lb == 0 else "pos"))
+    M0 = ttb.ktensor([rng.uniform(max(0.2, lb + 0.1), max(1.0, lb + 1.0), size=(s, R)) for s in shape])
     kwtol = {}
     if case.get("f_est_tol") is not None:
         # a loose (non-default) tolerance relative to the exact objective of the start: above it (the run may stop at once) or below it
@@ -374,7 +394,7 @@ def _w_solve(case, ctx, rng):
     ctx.feat(sampler=(skind if smp is not None else "default"))
     with Tap() as tap:
         if case["via_gcp_opt"]:
-            r = ctx.call("gcp_opt", ttb.gcp_opt, X, R, getattr(Objectives, loss), solver, init=M0.copy(), printitn=0, **({} if smp is None else {"sampler": smp}))
+            r = ctx.call("gcp_opt", ttb.gcp_opt, X, R, objective, solver, init=M0.copy(), printitn=0, **({} if smp is None else {"sampler": smp}))
         else:
             r = ctx.call(case["solver"] + ".solve", solver.solve, M0, X, fh, gh, lb, *([] if smp is None else [smp]))
     op = "gcp_opt" if case["via_gcp_opt"] else case["solver"] + ".solve"
